@@ -481,7 +481,7 @@ func Finish(r *Report, c *Ctx, verifDir, tier string, seed int64, t0 time.Time, 
 	}()
 	ev := map[string]interface{}{
 		"property_id": r.Prop, "tier": tier, "seed": seed, "level": "other",
-		"coverage": cov, "assumptions": r.Assumptions,
+		"coverage": cov, "assumptions": append([]string{}, r.Assumptions...),
 		"wall_s": time.Since(t0).Seconds(), "violations": len(viol),
 	}
 	eb, _ := json.MarshalIndent(ev, "", " ")
